@@ -333,9 +333,29 @@ def allDone (s : State) : Bool := s.tasks.all (fun t => t.pc == .done)
 /-- `pass_metadata.edge_cut_gain`. -/
 def passGain (s : State) : Int := (s.tasks.map (·.md.edgeCutGain)).sum
 
-/-- `PW <- (sum_i tPW_i) - (thread_count - 1) * PW`. -/
-def mergePw (c : Cfg) (s : State) : List Int :=
+/-- `PW <- (sum_i tPW_i) - (thread_count - 1) * PW`: the merge as it was before the repair
+of K9 (the intermediate sum is about `thread_count × PW`). Kept for `Props/C05c.lean`. -/
+def mergePwOld (c : Cfg) (s : State) : List Int :=
   s.pw.zipIdx.map fun x => (s.tasks.map (fun t => t.pw.getD x.2 0)).sum - ((c.threadCount : Int) - 1) * x.1
+
+/-- What a task brought into a part (`gains[p]`): `if pw <= thread_pw { thread_pw - pw }`. -/
+def taskGain (pw0 tpw : Int) : Int := if pw0 ≤ tpw then tpw - pw0 else 0
+
+/-- What a task took out of a part (`losses[p]`): `else { pw - thread_pw }`. -/
+def taskLoss (pw0 tpw : Int) : Int := if pw0 ≤ tpw then 0 else pw0 - tpw
+
+/-- The reduce's `gains[p]` over all tasks. -/
+def gainSum (s : State) (p : Nat) (pw0 : Int) : Int :=
+  (s.tasks.map fun t => taskGain pw0 (t.pw.getD p 0)).sum
+
+/-- The reduce's `losses[p]` over all tasks. -/
+def lossSum (s : State) (p : Nat) (pw0 : Int) : Int :=
+  (s.tasks.map fun t => taskLoss pw0 (t.pw.getD p 0)).sum
+
+/-- End-of-pass update `*pw += gain; *pw -= loss` (since the repair of K9): what the
+tasks brought in is added before what they took out is removed. -/
+def mergePw (_c : Cfg) (s : State) : List Int :=
+  s.pw.zipIdx.map fun x => x.1 + gainSum s x.2 x.1 - lossSum s x.2 x.1
 
 /-- End of a pass (all tasks done): merge; the flag tells whether the loop goes on. -/
 def endPass (c : Cfg) (s : State) : State × Bool :=
